@@ -86,7 +86,7 @@ impl Check for C01 {
             clock_small: true,
             sampled_faults: true,
             debris: true,
-            focus: true,
+            focus: 4,
         };
         let run = run_conc(tape, &cfg, ctx.detail);
         let mut out = base_out(&run);
@@ -138,11 +138,11 @@ impl Check for C05 {
         "C05"
     }
     fn rule(&self) -> String {
-        "2-3 participants run set/put/ensure/get_or_update/get/touch with capacity 0-2 (every write maintains; sharded writes also maintain a random other shard) on plain, sharded (shard directories missing at the start, so create_dir_all races with itself) and stacked caches (read-only level written by another participant), plus an adversary participant that unlinks published files (never temp files) at scheduler-chosen steps; half of the runs use stale-handle mode (ESTALE may replace ENOENT for a name a peer removed within the last 60 steps); no injected faults; simulated time stays far below the temp-file age limit. Oracle: every operation returns Ok (lookups Ok(Some|None) with valid content, touch Ok(bool), writes Ok(())) and none panics. Non-trivial = some participant's call observed ENOENT/ESTALE/EEXIST caused by a peer (a race actually happened); distinct = hash of configuration and schedule".to_string()
+        "2-3 participants run set/put/ensure/get_or_update/get/touch with capacity 0-2 (every write maintains; sharded writes also maintain a random other shard) on plain, sharded (shard directories missing at the start, so create_dir_all races with itself) and stacked caches (read-only level written by another participant), plus an adversary participant that unlinks published files (never temp files) at scheduler-chosen steps; half of the runs use stale-handle mode (ESTALE may replace ENOENT for a name a peer removed within the last 60 steps); no injected faults; simulated time stays far below the temp-file age limit; stale crash debris (older than the limit) is planted in half of the runs for concurrent maintainers to reclaim; every other run hammers ONE key with puts/sets while the adversary deletes it 3-8 times, with the scheduler preempting at 90 % of the link/rename/unlink/utimens calls. Oracle: every operation returns Ok (lookups Ok(Some|None) with valid content, touch Ok(bool), writes Ok(())) and none panics. Non-trivial = some participant's call observed ENOENT/ESTALE/EEXIST caused by a peer (a race actually happened); distinct = hash of configuration and schedule".to_string()
     }
     fn runs(&self, tier: Tier) -> u64 {
         match tier {
-            Tier::Quick => 30_000,
+            Tier::Quick => 60_000,
             Tier::Thorough => 1_500_000,
         }
     }
@@ -165,7 +165,7 @@ impl Check for C05 {
             clock_small: true,
             sampled_faults: false,
             debris: true,
-            focus: true,
+            focus: 2,
         };
         let run = run_conc(tape, &cfg, ctx.detail);
         let mut out = base_out(&run);
@@ -261,7 +261,7 @@ impl Check for C06 {
             clock_small: true,
             sampled_faults: false,
             debris: true,
-            focus: true,
+            focus: 4,
         };
         let run = run_conc(tape, &cfg, ctx.detail);
         let mut out = base_out(&run);
@@ -474,7 +474,7 @@ impl Check for C04 {
             clock_small: true,
             sampled_faults: false,
             debris: true,
-            focus: true,
+            focus: 4,
         };
         // C04 is about the plain cache: force plain writer and no reader by
         // re-drawing until the configuration qualifies is not replay-friendly;
